@@ -713,6 +713,24 @@ def prove(pc, claim, timeout_ms=None, rlimit=None):
     return check_sat(pc + [neg], timeout_ms, rlimit)
 
 
+def prove_abstract(hyps, claim, atoms, timeout_ms=20000):
+    """Prove `claim` from `hyps` with the sub-terms `atoms` replaced by fresh variables.
+    Abstraction forgets what the atoms are, so `unsat` here implies `unsat` concretely."""
+    subs = []
+    for k, a in enumerate(atoms):
+        if z3.is_const(a) or z3.is_rational_value(a):
+            continue
+        subs.append((a, z3.Real('abs!%d' % k)))
+    # substitute larger terms first
+    subs.sort(key=lambda p: -len(p[0].sexpr()))
+    def ab(t):
+        for a, v in subs:
+            t = z3.substitute(t, (a, v))
+        return t
+    cons = [ab(h) for h in hyps] + [z3.Not(ab(claim))]
+    return check_sat(cons, timeout_ms)
+
+
 def model_value(model, term):
     """Rational value of a z3 term in a model -> Fraction."""
     if isinstance(model, DictModel):
